@@ -421,6 +421,105 @@ def exhaustive_container_cases(quick):
     return out
 
 
+# ---------------------------------------------------------------------------------------------
+# large sparse graphs across the 2^7 / 2^8 / 2^15 / 2^16 node-count boundaries
+# (the model has unbounded indices and an unbounded mask element: C++ narrowing can only be seen here)
+# ---------------------------------------------------------------------------------------------
+
+BOUNDARY_ROWS = (126, 127, 128, 129, 254, 255, 256, 257, 32766, 32767, 32768, 32769, 65534, 65535, 65536, 65537)
+
+
+def large_relation(rng, n_dom, n_img):
+    """<= ~3 adjacencies per row; duplicates concentrated in the last rows and in the rows around the power-of-two
+    boundaries, pointing at the highest image indices"""
+    adj = []
+    hot = set(r for r in BOUNDARY_ROWS if r < n_dom) | set(range(max(0, n_dom - 6), n_dom))
+    for i in range(n_dom):
+        if n_img == 0:
+            adj.append([])
+        elif i in hot:
+            top = [n_img - 1 - rng.randrange(min(3, n_img)) for _ in range(2)]
+            row = [top[0], top[1], top[0], rng.randrange(n_img), top[0]][:rng.choice([3, 4, 5])]
+            adj.append(row)
+        else:
+            adj.append([rng.randrange(n_img) for _ in range(rng.choice([0, 1, 1, 2, 3]))])
+    return adj
+
+
+def large_symmetric(rng, n, multi):
+    """a long path with some chords, a few isolated nodes, the highest nodes joined to each other; `multi` repeats
+    adjacencies of the last / boundary rows (symmetric as a relation)"""
+    s = [set() for _ in range(n)]
+    iso = set(rng.sample(range(n), min(4, n // 8)))
+    prev = None
+    for i in range(n):
+        if i in iso:
+            continue
+        if prev is not None and rng.random() < 0.995:
+            s[i].add(prev)
+            s[prev].add(i)
+        prev = i
+    for _ in range(n // 10):
+        a, b = rng.randrange(n), rng.randrange(n)
+        if a != b and a not in iso and b not in iso and len(s[a]) < 3 and len(s[b]) < 3:
+            s[a].add(b)
+            s[b].add(a)
+    adj = [sorted(x) for x in s]
+    for x in adj:
+        if rng.random() < 0.5:
+            rng.shuffle(x)
+    if multi:
+        hot = set(r for r in BOUNDARY_ROWS if r < n) | set(range(max(0, n - 6), n))
+        rep = {}
+        for i in hot:
+            for j in adj[i]:
+                rep[(min(i, j), max(i, j))] = 2
+        adj = [[j for j in l for _ in range(rep.get((min(i, j), max(i, j)), 1))] for i, l in enumerate(adj)]
+    return adj
+
+
+def large_sizes(rng, quick):
+    sz = [127, 128, 129, 255, 256, 257, rng.randrange(120, 141), rng.randrange(250, 271)]
+    if not quick:
+        sz += [32767, 32768, 65535, 65536, rng.randrange(32760, 32781), rng.randrange(65530, 65551)]
+    return sz
+
+
+def large_cases(rng, quick):
+    cases = []
+    for n in large_sizes(rng, quick):
+        m = n + rng.choice([-1, 0, 1, 2])
+        adj = large_relation(rng, n, m)
+        g = fmt_graph(m, adj)
+        for rt in range(8):
+            cases.append("render %d %s" % (rt, g))
+        # composite: n -> k -> m2 with k and m2 in the same band
+        k, m2 = n + rng.choice([-2, 0, 1]), n + rng.choice([-1, 0, 3])
+        a = [[rng.randrange(k) for _ in range(rng.choice([0, 1, 2]))] for _ in range(n)]
+        for i in range(max(0, n - 4), n):
+            a[i] = [k - 1, k - 2 if k > 1 else 0, k - 1]
+        b = large_relation(rng, k, m2)
+        for rt in range(8):
+            cases.append("render2 %d %s %s" % (rt, fmt_graph(k, a), fmt_graph(m2, b)))
+        cases.append("sort %s" % g)
+        cases.append("degree %s" % g)
+        cases.append("gperm %s %s %s" % (g, fmt_list(rand_perm(rng, n)), fmt_list(rand_perm(rng, m))))
+        cases.append("gpermidx %s %s" % (g, fmt_list(rand_perm(rng, m))))
+        sym = large_symmetric(rng, n, False)
+        gs = fmt_graph(n, sym)
+        cases.append("color %s" % gs)
+        cases.append("colororder %s %s" % (gs, fmt_list(rand_perm(rng, n))))
+        symm = fmt_graph(n, large_symmetric(rng, n, True))
+        for (rev, rt, st) in ((0, 0, 0), (1, 1, 1), (0, 2, 2), (1, 0, 2)):
+            cases.append("cm %d %d %d %s" % (rev, rt, st, symm))
+    return cases
+
+
+def is_huge(case):
+    """cases beyond 2^12 nodes are judged by the oracle only (the list-level model is quadratic in the node count)"""
+    return len(case) > 60000
+
+
 def randperm_cases(binary, rng, count):
     """`Permutation(n, Random&)`: a pre-pass asks the library for the swap array it draws (op randswap); the case
     line repeats it so that the model (which has no RNG) can rebuild the permutation from it"""
@@ -462,6 +561,12 @@ CORPUS = [
     "dyn 3 2 i 0 2 i 0 1 i 0 2 x 0 1 e 0 1 e 0 1 g r 0 l r 4 c g",
     "colorctor 0 0 4 0 5 5 2",
     "permx 3 1 2 0",
+    # narrowing seeds: 128- and 300-node relations whose rows >= 127 carry duplicates (a mask/tag kept in 8 bits fails here)
+    "render 2 " + fmt_graph(130, [[i % 130] for i in range(127)] + [[129, 129, 5, 129]]),
+    "render 3 " + fmt_graph(300, [[(7 * i) % 300] for i in range(297)] + [[299, 298, 299], [1, 299, 1, 299], [299, 299]]),
+    "render 6 " + fmt_graph(300, [[(7 * i) % 300] for i in range(297)] + [[299, 298, 299], [1, 299, 1, 299], [299, 299]]),
+    "render2 2 " + fmt_graph(3, [[i % 3] for i in range(299)] + [[2, 1, 2]]) + " " + fmt_graph(300, [[299, 0], [299, 299, 298], [0, 299]]),
+    "render2 6 " + fmt_graph(3, [[i % 3] for i in range(299)] + [[2, 1, 2]]) + " " + fmt_graph(300, [[299, 0], [299, 299, 298], [0, 299]]),
     # F-C19-5 (fixed 1c006df21): CompositeAdjactor::image_begin on an empty adjactor-2 list
     "adjcomp 1 1 1 0 0 1 0", "adjcomp 2 1 2 1 0 1 2 1 0 0", "adjrender 0 2 1 1 0 1 2 0 0",
     "adjcomp 2 3 4 1 1 0 1 0 2 1 0 2 2 0 2 1 0",
@@ -806,13 +911,13 @@ def oracle(case, out):
                     return e
                 if r_img != len(adj):
                     return "transpose image size %d, expected %d" % (r_img, len(adj))
+                exp_rows = [[] for _ in range(n_img)]
+                for j, l in enumerate(adj):
+                    for k in (l if base == 2 else dict.fromkeys(l)):
+                        exp_rows[k].append(j)
                 for i in range(n_img):
-                    if base == 2:
-                        exp = [j for j, l in enumerate(adj) for k in l if k == i]
-                    else:
-                        exp = [j for j, l in enumerate(adj) if i in l]
-                    if radj[i] != exp:
-                        return "transposed row %d: %s, expected %s" % (i, radj[i], exp)
+                    if radj[i] != exp_rows[i]:
+                        return "transposed row %d: %s, expected %s" % (i, radj[i], exp_rows[i])
             return None
         if op == "sort":
             n_img, adj = c.graph_in()
@@ -1227,6 +1332,14 @@ def main(argv):
                      describe=describe, signature=signature, canon=canon)
     streams = [st]
     if not args.replay:
+        lg = large_cases(rng, quick)
+        streams.append(vlib.Stream("large", [cs for cs in lg if not is_huge(cs)], [binary], vlib.driver_cmd(PROP),
+                                   oracle=oracle, nontrivial=nontrivial, describe=describe, signature=signature,
+                                   canon=canon))
+        huge = [cs for cs in lg if is_huge(cs)]
+        if huge:   # 2^15 / 2^16 nodes: implementation vs independent oracle only (the list-level model is quadratic)
+            streams.append(vlib.Stream("large-oracle-only", huge, [binary], None, oracle=oracle, nontrivial=nontrivial,
+                                       describe=describe, signature=signature, canon=canon))
         ex = exhaustive_render_cases(quick) + exhaustive_symmetric_cases(quick) + exhaustive_container_cases(quick)
         streams.append(vlib.Stream("small-scope", ex, [binary], vlib.driver_cmd(PROP), oracle=oracle,
                                    nontrivial=nontrivial, describe=describe, signature=signature, canon=canon))
